@@ -532,7 +532,17 @@ class Component(CaselessDict):
         subs = ', '.join(str(it) for it in self.subcomponents)
         return f"{self.name or type(self).__name__}({dict(self)}{', ' + subs if subs else ''})"
 
+    def copy(self):
+        """Return a copy of the properties that is a component of the same kind."""
+        component = super().copy()
+        component.name = self.name
+        return component
+
     def __eq__(self, other):
+        if not isinstance(other, Component):
+            return False
+        if self.name != other.name:
+            return False
         if len(self.subcomponents) != len(other.subcomponents):
             return False
 
@@ -545,8 +555,14 @@ class Component(CaselessDict):
         # are the subcomponent types hashable, so  we cant put them in a set to
         # check for set equivalence. We have to iterate over the subcomponents
         # and look for each of them in the list.
+        # Each subcomponent of other can only be matched once (multiset equality).
+        unmatched = list(other.subcomponents)
         for subcomponent in self.subcomponents:
-            if subcomponent not in other.subcomponents:
+            for index, candidate in enumerate(unmatched):
+                if subcomponent == candidate:
+                    del unmatched[index]
+                    break
+            else:
                 return False
 
         return True
